@@ -11,6 +11,11 @@ pub mod spec;
 pub mod stubs;
 
 pub mod h_unarmor;
+pub mod p_c04;
+pub mod p_c09;
+pub mod p_c12;
+pub mod p_c16;
+pub mod p_nav;
 
 /// all harness bodies, for native replay
 #[cfg(not(kani))]
@@ -18,4 +23,15 @@ pub fn lookup<N: nd::Nd>(name: &str) -> Option<fn(&mut N)> {
     None.or_else(|| h_unarmor::w12::L12::<N>(name))
         .or_else(|| h_unarmor::w16::L16::<N>(name))
         .or_else(|| h_unarmor::w40::L40::<N>(name))
+        .or_else(|| p_c04::wp::LP::<N>(name))
+        .or_else(|| p_c04::wt::LT::<N>(name))
+        .or_else(|| p_c09::wp::LP::<N>(name))
+        .or_else(|| p_c09::wt::LT::<N>(name))
+        .or_else(|| p_c12::wp::LP::<N>(name))
+        .or_else(|| p_c12::wt::LT::<N>(name))
+        .or_else(|| p_c16::wp::LP::<N>(name))
+        .or_else(|| p_nav::wp::LP::<N>(name))
+        .or_else(|| p_nav::wt::LT::<N>(name))
+        .or_else(|| p_nav::wn::LN::<N>(name))
+        .or_else(|| p_nav::wnt::LNT::<N>(name))
 }
